@@ -75,7 +75,7 @@ def run_harness(args, timeout=900):
     try:
         p = subprocess.run([exe] + args, stdout=subprocess.PIPE, stderr=subprocess.PIPE, text=True, timeout=timeout)
     except subprocess.TimeoutExpired:
-        return {"crash": "timeout", "args": args}
+        raise ToolError("harness process did not finish within %d s: %s" % (timeout, " ".join(args[:8])))
     if p.returncode != 0:
         return {"crash": "exit %d" % p.returncode, "stderr": p.stderr[-2000:], "args": args}
     try:
@@ -94,7 +94,8 @@ def explore(scn_file, outdir, tag, mode, runs=1000, bound=2, shards=None, extra=
         out = os.path.join(outdir, "%s.%d.api.ndjson" % (tag, k))
         sch = os.path.join(outdir, "%s.%d.sched.ndjson" % (tag, k))
         a = ["explore", "--scn", scn_file, "--mode", mode, "--runs", str(runs), "--bound", str(bound),
-             "--seed", str(seed()), "--part", str(k), "--of", str(shards), "--out", out, "--sched-out", sch]
+             "--seed", str(seed()), "--part", str(k), "--of", str(shards), "--out", out, "--sched-out", sch,
+             "--time-budget", str(TIME_BUDGET)]
         if extra:
             a += extra
         jobs.append((a, out, sch))
@@ -108,7 +109,7 @@ def explore(scn_file, outdir, tag, mode, runs=1000, bound=2, shards=None, extra=
 
 def merge_stats(stats):
     m = {"runs": 0, "distinct_traces": 0, "nontrivial": 0, "events": 0, "outcomes": {}, "exhaustive": True,
-         "crashes": [], "max_steps": 0, "extra": []}
+         "crashes": [], "max_steps": 0, "extra": [], "out_of_time": 0}
     for s in stats:
         if "crash" in s:
             m["crashes"].append(s)
@@ -118,6 +119,7 @@ def merge_stats(stats):
         m["nontrivial"] += s["nontrivial"]
         m["events"] += s["events"]
         m["exhaustive"] = m["exhaustive"] and s["exhaustive"]
+        m["out_of_time"] += 1 if s.get("out_of_time") else 0
         m["max_steps"] = max(m["max_steps"], s.get("max_steps", 0))
         if s.get("extra"):
             m["extra"].append(s["extra"])
@@ -268,6 +270,8 @@ def _tlc_trace(trace_file, cfg, metadir, timeout=900):
     return int(m.group(1)), int(m.group(2)), m.group(3), r
 
 
+# wall-clock budget of one harness process per exploration plan (seconds); set by the checks per tier
+TIME_BUDGET = 60
 MAX_REJECT_PER_FILE = 4
 MAX_EVENTS_PER_TLC = 250000
 
